@@ -178,6 +178,14 @@ def register_t1b(J):
                            "otherwise the name is interned through the section list and the entry points at the interned "
                            "text (it never owns or frees a section name); a failing list reports ECONF_NOMEM; nothing else "
                            "is written."))
+    J.append(Job("cpyentry", ["C03"], "harness/cpyentry.c", sources=["lib/helpers.c"], stubs=["stubs/strdup_log4.c"],
+                 contracts=["contracts/cpyentry.h"], enforce="cpy_file_entry", replace=["setGroupList"], unwind=8, tier="T1",
+                 timeout=300, mem_gb=4, expect=[r"cpy_file_entry\.postcondition", r"main\.assertion"],
+                 model="abstract strdup with a four-slot ghost log (no string is read: texts of any length)",
+                 statement="C03: the entry copy every merge worker uses carries exactly the source's key and value (private "
+                           "copies of THOSE texts; an absent value stays absent); every text the copy points to was allocated "
+                           "by this call and the four are different objects (releasing a merge result cannot touch an input); "
+                           "its section name is interned in the DESTINATION object; frame: nothing of either object is written."))
     J.append(Job("initialize", ["C20", "C11"], "harness/setkey.c", sources=["lib/helpers.c"], stubs=["stubs/strdup_abstract.c"],
                  contracts=["contracts/setkey.h"], enforce="initialize", replace=["setGroupList"], unwind=8, tier="T1",
                  defines=["-DPART_INITIALIZE=1"], timeout=900, mem_gb=6, expect=[r"initialize\.postcondition"],
